@@ -336,7 +336,8 @@ type call struct {
 	err      error
 	panicked interface{}
 	returned []interface{}
-	mixed    bool // statement-level confinement not attributable (shared batch)
+	mixed    bool  // statement-level confinement not attributable (shared batch)
+	pairOf   *call // mixed-live: the same query issued just before through another handle
 }
 
 func (c *call) describe() string {
@@ -821,6 +822,9 @@ var writeOps = []string{"InsertRow", "InsertRows", "UpsertRow", "UpsertRows", "U
 func (s *scenario) genCall(ctxKind string, handle int, op string) *call {
 	r := s.r
 	table := tableNames[r.Intn(len(tableNames))]
+	if op == "DeleteRow" && r.Intn(2) == 0 {
+		table = "members" // the only table whose primary key contains a shard column
+	}
 	c := s.newCall(op, ctxKind, table, handle)
 	limits := s.specs[handle].enforced(table)
 	intent := s.pickIntent()
@@ -1073,6 +1077,7 @@ func (s *scenario) play() {
 				c2 := s.newCall(c1.op, "mixed-live", c1.table, h2)
 				c2.filter, c2.opts, c2.optDesc, c2.intent = c1.filter, copyOpts(c1.opts), c1.optDesc, "same-as-previous"
 				c2.classify(s.specs[h2].enforced(c2.table))
+				c2.pairOf = c1
 				first, second = append(first, c1), append(second, c2)
 			}
 			s.runInRerunner(func(ctx context.Context) {
@@ -1086,6 +1091,15 @@ func (s *scenario) play() {
 }
 
 // ---- oracle ----
+
+// cacheBypass recognises the known defect "livedb-cache-skips-limit-check":
+// a LiveDB query inside a reactive computation, issued right after the same
+// query succeeded through another handle's LiveDB, that reached no statement
+// at all (it was answered from the rerunner's cache, whose key is only the
+// SQL text and arguments).
+func (c *call) cacheBypass(stmts []*fakesql.Stmt) bool {
+	return c.ctxKind == "mixed-live" && len(stmts) == 0 && c.pairOf != nil && c.pairOf.err == nil && c.pairOf.handle != c.handle
+}
 
 func sqlEqual(kind fakesql.Kind, limit interface{}, arg driver.Value) bool {
 	d := norm(limit)
@@ -1205,6 +1219,14 @@ func pairsString(ps []pair) string {
 	return "[" + strings.Join(parts, " ") + "]"
 }
 
+// violation records a violation and counts it by kind for the evidence.
+func (s *scenario) violation(class, kind string, w map[string]interface{}) {
+	if class == "" {
+		s.run.Count("violations_unclassified:"+kind, 1)
+	}
+	s.run.Violation(s.idx, class, w)
+}
+
 func (s *scenario) check(sinceSeq int64) {
 	run := s.run
 	if b := s.eng.Broken(); len(b) > 0 {
@@ -1242,16 +1264,16 @@ func (s *scenario) check(sinceSeq int64) {
 		shape := fmt.Sprintf("%s|%s|%s|%s|%s|%s|opt=%s|%s|stmts=%d", c.op, c.ctxKind, c.table, limitShape(s.specs[c.handle], c.table), c.class, c.intent, c.optDesc, outcome, len(stmts))
 		run.Case(shape, len(limits) > 0)
 		if c.panicked != nil {
-			run.Violation(s.idx, "", s.witness(c, fmt.Sprintf("call panicked: %v", c.panicked), stmts))
+			s.violation("", "panic", s.witness(c, fmt.Sprintf("call panicked: %v", c.panicked), stmts))
 			continue
 		}
 		if c.class == "noncomplying" {
 			if c.err == nil {
 				cls := ""
-				if c.ctxKind == "mixed-live" && len(stmts) == 0 {
+				if c.cacheBypass(stmts) {
 					cls = "livedb-cache-skips-limit-check"
 				}
-				run.Violation(s.idx, cls, s.witness(c, "non-complying call returned a nil error", stmts))
+				s.violation(cls, "noncomplying-nil-error", s.witness(c, "non-complying call returned a nil error", stmts))
 			}
 			var reached []*fakesql.Stmt
 			committed := false
@@ -1276,7 +1298,7 @@ func (s *scenario) check(sinceSeq int64) {
 						cls = "chunked-write-before-check"
 					}
 				}
-				run.Violation(s.idx, cls, s.witness(c, "non-complying call reached the database (statements other than BEGIN/ROLLBACK were logged)", stmts))
+				s.violation(cls, "noncomplying-reached-db", s.witness(c, "non-complying call reached the database (statements other than BEGIN/ROLLBACK were logged)", stmts))
 			}
 		}
 		if len(limits) > 0 && !c.mixed {
@@ -1292,7 +1314,7 @@ func (s *scenario) check(sinceSeq int64) {
 				run.Count("statements_checked:"+st.Kind.String(), 1)
 				run.Count("disjuncts_checked", nconj)
 				if m != "" {
-					run.Violation(s.idx, "", s.witness(c, "statement on a limited handle is not confined to the shard: "+m, stmts))
+					s.violation("", "unconfined-statement:"+st.Kind.String(), s.witness(c, "statement on a limited handle is not confined to the shard: "+m, stmts))
 				}
 			}
 		}
@@ -1302,10 +1324,10 @@ func (s *scenario) check(sinceSeq int64) {
 				v, _ := fieldOf(row, p.col)
 				if !sameDenotation(norm(v), norm(p.val)) {
 					cls := ""
-					if c.ctxKind == "mixed-live" && len(stmts) == 0 {
+					if c.cacheBypass(stmts) {
 						cls = "livedb-cache-skips-limit-check"
 					}
-					run.Violation(s.idx, cls, s.witness(c, fmt.Sprintf("limited handle returned a row outside its shard: %s", derefShow(row)), stmts))
+					s.violation(cls, "row-outside-shard", s.witness(c, fmt.Sprintf("limited handle returned a row outside its shard: %s", derefShow(row)), stmts))
 					break
 				}
 			}
@@ -1323,7 +1345,7 @@ func (s *scenario) check(sinceSeq int64) {
 	run.Count("dynamic:GetLimitFilter_calls", s.obs.getCalls)
 	run.Count("dynamic:ShouldContinueOnError_calls", s.obs.errCalls)
 	for _, w := range s.obs.wrongTable {
-		run.Violation(s.idx, "", map[string]interface{}{"what": "dynamic limit consulted for the wrong table: " + w, "case": s.idx})
+		s.violation("", "dynamic-wrong-table", map[string]interface{}{"what": "dynamic limit consulted for the wrong table: " + w, "case": s.idx})
 	}
 	s.obs.mu.Unlock()
 	if n := s.eng.OpenTransactions(); n != 0 {
@@ -1427,7 +1449,7 @@ func TestCheck(t *testing.T) {
 	run.Assume("a filter value denotes a column value by Go kind after pointer dereference (ints by numeric value, strings/[]byte by bytes); a string such as \"1\" does not denote the integer 1")
 	run.Assume("complying calls are allowed to fail (thunder compares Go values with ==, so another Go type of the same value is rejected); only statements and non-complying calls are judged")
 	reactive.WriteThenReadDelay = 0
-	n := run.N(260, 26000)
+	n := run.N(1500, 150000)
 	run.Each(n, 8, func(i int) {
 		runScenario(run, i)
 	})
